@@ -1635,6 +1635,11 @@ func (fr *Frame) execRange(in *ssa.Range, st *State) Val {
 	c.id = vc.n
 	st.cells[c] = fmt.Sprintf("((as const (Array %s Bool)) false)", ks)
 	snap := Val{T: x.T, Term: vc.term(st, x)}
+	if vc.W.RangeNeedsInjective[in] {
+		ms := vc.S.Sort(x.T)
+		vc.oblige(fr.top.oname(), "order", "injective-values", append([]string{"C08"}, fr.top.props...), fr.blockCond[fr.curBlock],
+			fmt.Sprintf("(forall ((?a %s) (?b %s)) (=> (and %s %s (not (= ?a ?b))) (not (= %s %s))))", ks, ks, mapHas(ms, snap.Term, "?a"), mapHas(ms, snap.Term, "?b"), mapGet(ms, snap.Term, "?a"), mapGet(ms, snap.Term, "?b")))
+	}
 	return Val{T: in.Type(), Range: &RangeState{Map: snap, Visited: c, KeySort: ks}}
 }
 
